@@ -1,0 +1,103 @@
+//! Verification hooks (cargo feature `verif-hooks`, off by default).
+//!
+//! Instrumented twins of the atomics and of the fence used by the concurrent buffer, plus a few
+//! read-only accessors. Every atomic access is reported, with the `Ordering` the source really
+//! passes, to a listener installed by the verification harness; the listener may block the calling
+//! thread (scheduling) and may substitute the value a load returns (scripted stale reads).
+//! Without a listener the twins behave exactly like the real atomics.
+extern crate std;
+
+use core::sync::atomic::Ordering;
+use std::sync::{Arc, RwLock};
+
+use crate::iterators::async_iterators::AsyncIterator;
+use crate::iterators::PrivateMRBIterator;
+use crate::ring_buffer::variants::ring_buffer_trait::StorageManager;
+use crate::ring_buffer::storage::Storage;
+use crate::{MRBIterator, UnsafeSyncCell};
+
+#[derive(Clone, Copy, Debug, PartialEq, Eq)]
+pub enum Kind { Load, Store, FetchAnd, FetchOr, Fence, BufAlloc, BufFree }
+
+/// One access. `value` is the value stored / the operand of a read-modify-write (0 for loads and fences).
+#[derive(Clone, Copy, Debug)]
+pub struct Event { pub kind: Kind, pub addr: usize, pub order: Ordering, pub value: usize }
+
+pub trait Listener: Send + Sync {
+    /// Called before the access takes effect; may block. For `Load`, `Some(v)` makes the load return `v`.
+    fn before(&self, e: &Event) -> Option<usize>;
+    /// Called after the access took effect with the value read from memory (loads, read-modify-writes).
+    fn after(&self, _e: &Event, _read: usize) {}
+}
+
+static LISTENER: RwLock<Option<Arc<dyn Listener>>> = RwLock::new(None);
+
+pub fn set_listener(l: Option<Arc<dyn Listener>>) { *LISTENER.write().unwrap() = l; }
+
+fn listener() -> Option<Arc<dyn Listener>> { LISTENER.read().unwrap().clone() }
+
+/// Reports a non-atomic event (buffer boxed / freed).
+pub fn event(kind: Kind, addr: usize) {
+    if let Some(l) = listener() {
+        l.before(&Event { kind, addr, order: Ordering::Relaxed, value: 0 });
+    }
+}
+
+macro_rules! twin {
+    ($name: ident, $real: ty, $t: ty) => {
+        pub struct $name($real);
+        impl From<$t> for $name { fn from(v: $t) -> Self { Self(<$real>::new(v)) } }
+        impl $name {
+            pub const fn new(v: $t) -> Self { Self(<$real>::new(v)) }
+            fn addr(&self) -> usize { self as *const _ as usize }
+            pub fn load(&self, order: Ordering) -> $t {
+                let l = listener();
+                let e = Event { kind: Kind::Load, addr: self.addr(), order, value: 0 };
+                let sub = l.as_ref().and_then(|l| l.before(&e));
+                let real = self.0.load(order);
+                if let Some(l) = l.as_ref() { l.after(&e, real as usize); }
+                match sub { Some(v) => v as $t, None => real }
+            }
+            pub fn store(&self, v: $t, order: Ordering) {
+                let e = Event { kind: Kind::Store, addr: self.addr(), order, value: v as usize };
+                if let Some(l) = listener() { l.before(&e); }
+                self.0.store(v, order)
+            }
+            pub fn fetch_and(&self, v: $t, order: Ordering) -> $t {
+                let l = listener();
+                let e = Event { kind: Kind::FetchAnd, addr: self.addr(), order, value: v as usize };
+                if let Some(l) = l.as_ref() { l.before(&e); }
+                let old = self.0.fetch_and(v, order);
+                if let Some(l) = l.as_ref() { l.after(&e, old as usize); }
+                old
+            }
+            pub fn fetch_or(&self, v: $t, order: Ordering) -> $t {
+                let l = listener();
+                let e = Event { kind: Kind::FetchOr, addr: self.addr(), order, value: v as usize };
+                if let Some(l) = l.as_ref() { l.before(&e); }
+                let old = self.0.fetch_or(v, order);
+                if let Some(l) = l.as_ref() { l.after(&e, old as usize); }
+                old
+            }
+        }
+    };
+}
+
+twin!(AtomicUsize, core::sync::atomic::AtomicUsize, usize);
+twin!(AtomicU8, core::sync::atomic::AtomicU8, u8);
+
+pub fn fence(order: Ordering) {
+    if let Some(l) = listener() { l.before(&Event { kind: Kind::Fence, addr: 0, order, value: 0 }); }
+    core::sync::atomic::fence(order)
+}
+
+/// The availability the iterator remembers (`cached_avail`), without refreshing it.
+pub fn cached_avail<I: MRBIterator>(it: &I) -> usize { PrivateMRBIterator::cached_avail(it) }
+
+/// The availability remembered by the iterator inside an async wrapper.
+pub fn cached_avail_async<A: AsyncIterator>(it: &A) -> usize { PrivateMRBIterator::cached_avail(it.inner()) }
+
+/// Address of slot 0 of the buffer the iterator belongs to.
+pub fn storage_ptr<I: MRBIterator>(it: &I) -> *const UnsafeSyncCell<I::Item> {
+    PrivateMRBIterator::buffer(it).inner().as_ptr()
+}
